@@ -222,6 +222,25 @@ def is_evse_at(recv_s, idx_s=None):
     return False
 
 
+def anchored_fn(repo, qual, locals_=(), nested=False, loops_over=None):
+    """the anchor function `qual`, provided it still has the working variables the rules are phrased over (a rule that tracks "the
+    schedule array" by the name it has on the pinned tree cannot follow a rewrite that keeps the values in differently named or
+    differently shaped locals: that is `not recognised`, an ANALYSIS-ERROR, never a violation)"""
+    f = repo.fn(qual)
+    assigned = {n.id for n in walk_local(f.node) if isinstance(n, ast.Name) and isinstance(n.ctx, ast.Store)}
+    missing = [x for x in locals_ if x not in assigned]
+    if missing:
+        raise AnalysisError(f"{qual} was restructured: the working variable(s) {missing} the rules follow no longer exist")
+    def stores_schedule(loop):
+        return any(isinstance(x, ast.Subscript) and isinstance(x.ctx, ast.Store) and isinstance(x.value, ast.Name) and x.value.id in locals_ for x in ast.walk(loop))
+    if loops_over and not all(any(isinstance(n, ast.For) and isinstance(n.iter, ast.Name) and n.iter.id == lv and isinstance(n.target, ast.Name) and stores_schedule(n)
+                                  for n in walk_local(f.node)) for lv in loops_over):
+        raise AnalysisError(f"{qual} was restructured: no `for <session> in {'/'.join(loops_over)}` loop (the rules follow the session variable of that loop)")
+    if nested and not any(isinstance(n, (ast.FunctionDef, ast.Lambda)) for n in walk_local(f.node)):
+        raise AnalysisError(f"{qual} was restructured: the nested search closure the rules follow no longer exists")
+    return f
+
+
 def lin(flow, expr, node):
     return linear(flow.expand(expr, node), norm=canon)
 
